@@ -23,7 +23,7 @@ GF = rig.GENERAL_FAILURE
 
 OPS = ['create', 'create_key_pair', 'register_sym', 'register_cert', 'register_opaque', 'register_secret',
        'register_split', 'register_priv', 'derive_key', 'activate', 'revoke', 'revoke_compromise', 'destroy',
-       'destroy_rich', 'modify_name', 'add_group_v1', 'delete_name', 'delete_asi', 'set_sensitive', 'modify_asi_v2']
+       'destroy_rich', 'destroy_compromised', 'modify_name', 'add_group_v1', 'delete_name', 'delete_asi', 'set_sensitive', 'modify_asi_v2']
 
 
 def plan(tier):
@@ -75,6 +75,8 @@ def prepare(path, rng):
     env['cert'] = store.register(srv, 'cert', 'alice', rng, names=['cert-1', 'cert-2'], groups=['g1'], state='pre', real_keys=False)
     env['derive'] = store.register(srv, 'sym', 'alice', rng, names=['drv'], masks=[M.DERIVE_KEY], state='pre', value=bytes(range(32, 64)))
     env['other'] = store.register(srv, 'secret', 'bob', rng, names=['bobs'], state='pre')
+    env['compromised'] = store.register(srv, 'sym', 'alice', rng, names=['comp-1', 'comp-2'], groups=['g1'], state='compromised',
+                                        value=bytes(range(64, 80)))
     srv.close()
     return {k: v.uid for k, v in env.items()}
 
@@ -112,6 +114,8 @@ def build(op, env, tagname):
         return v, [op_destroy(env['cert'])]
     if op == 'destroy_rich':
         return v, [op_destroy(env['pre'])]
+    if op == 'destroy_compromised':
+        return v, [op_destroy(env['compromised'])]
     if op == 'modify_name':
         return v, [op_modify_attribute_1x(env['pre'], rig.attr(A.NAME, name_value('renamed-' + tagname), 1))]
     if op == 'add_group_v1':
@@ -403,6 +407,16 @@ def run_case(ctx, case):
         if statuses[main_index] != 'S':
             ctx.unsure('operation %s does not succeed on the prepared store (%s)' % (case['op'], statuses))
             return
+        # an acknowledged state-changing request must be in effect when the store is reopened - with or without a
+        # crash: the twin "k+1 applied" (observed through a fresh engine on the file) must differ from "k applied"
+        for i, st in enumerate(statuses):
+            ctx.count('acknowledged_effects_checked')
+            if st == 'S' and obs_equal(twins[i], twins[i + 1]):
+                which = case['op'] if i == main_index else 'companion'
+                ctx.violation('%s|none|lost-ack' % which,
+                              'request %d (%s) was acknowledged as successful, but a fresh engine on the same file shows no '
+                              'effect of it' % (i, which), {'case': case, 'statuses': statuses})
+                return
         if case['cls'] == 'sys':
             return run_syscalls(ctx, case, d, base, env, twins, main_index, base_max)
         # dry run: count events
